@@ -37,8 +37,9 @@ def db(F, R):
     why = ''
     seen = set()
     for key, (ret, calls) in rets.items():
-        zero_test = [v for d, v in key if '::eq(' in d and 'Decibels(const 0f32)' in d]
-        sil_test = [v for d, v in key if 'PartialOrd' in d and '::le(' in d and 'SILENCE' in d]
+        from ..paths import expand_consts
+        zero_test = [v for d, v in key if '::eq(' in d and 'Decibels(const 0f32)' in expand_consts(d)]
+        sil_test = [v for d, v in key if 'PartialOrd' in d and '::le(' in d and 'Decibels(const -60f32)' in expand_consts(d)]
         if zero_test and zero_test[0] is True:
             seen.add('unity')
             if ret != '1.0' or any('powf' in c for c in calls):
